@@ -14,12 +14,13 @@
 (* independent reading, in the layout of the option combination.           *)
 (***************************************************************************)
 EXTENDS Merge, CdnsFormat, Json, IOUtils
+Tools == INSTANCE Tools
 
 Tr == ndJsonDeserialize(IOEnv.TRACE)
 N  == Len(Tr)
 
-VARIABLES l, viol, execs
-tvars == <<l, viol, execs>>
+VARIABLES l, viol, execs, drift
+tvars == <<l, viol, execs, drift>>
 Note(v) == IF Len(viol) < 60 THEN Append(viol, v) ELSE viol
 Notes(vs) == LET RECURSIVE A(_, _)
                  A(acc, i) == IF i > Len(vs) \/ Len(acc) >= 60 THEN acc ELSE A(Append(acc, vs[i]), i + 1)
@@ -115,13 +116,36 @@ CountViol(ev, ln) ==
             ELSE <<[l |-> ln, prop |-> "C18", what |-> "cdns-itemcount output differs from the counts of an independent parse",
                     perblock |-> ev.perblock, pretty |-> ev.pretty, got |-> ev.lines, want |-> want, status |-> ev.status]>>
 
-TraceInit == l = 1 /\ viol = <<>> /\ execs = 0
-TMerge == /\ l <= N /\ Tr[l].e = "M" /\ l' = l + 1 /\ execs' = execs + 1 /\ viol' = Notes(MergeViol(Tr[l], l))
-TCount == /\ l <= N /\ Tr[l].e = "I" /\ l' = l + 1 /\ execs' = execs + 1 /\ viol' = Notes(CountViol(Tr[l], l))
+TraceInit == l = 1 /\ viol = <<>> /\ execs = 0 /\ drift = <<>>
+TMerge == /\ l <= N /\ Tr[l].e = "M" /\ l' = l + 1 /\ execs' = execs + 1 /\ viol' = Notes(MergeViol(Tr[l], l)) /\ UNCHANGED drift
+(* "T": one run of cdns-items / cdns-blocks (beyond the listed properties; Tools.tla): the headings on stdout must be those of
+   the items / blocks the options select, numbered as Tools!ItemsAbs / BlocksAbs say, given the counts of the independent reading.
+   A mismatch is reported as model drift, never as a violation of a listed property. *)
+ToolDrift(ev, ln) ==
+    LET P == Parse(Expand(ev.bytes)) IN
+    IF ~P.ok \/ FileErrs(P.n) # {} THEN <<>>
+    ELSE LET D == DenFile(P.n)
+             file == [j \in 1..Len(D.blocks) |-> [q |-> Len(D.blocks[j].qrs), a |-> Len(D.blocks[j].aecs), m |-> Len(D.blocks[j].mms)]]
+         IN IF ev.tool = "items"
+            THEN LET want == Tools!ItemsAbs(file, ev.opt)
+                     pinned == Tools!ItemsImpl(file, ev.opt, "short_remark_exact")
+                 IN (IF ev.heads # want.heads
+                     THEN <<[l |-> ln, what |-> "cdns-items shows other items / numbers than its options select (Tools!ItemsAbs)",
+                             opt |-> ev.opt, file |-> file, got |-> ev.heads, want |-> want.heads]>> ELSE <<>>)
+                    \o (IF ev.short # pinned.short
+                        THEN <<[l |-> ln, what |-> "cdns-items: the 'not enough items' remark differs from the modelled (pinned) rule",
+                                opt |-> ev.opt, file |-> file, got |-> ev.short, want |-> pinned.short]>> ELSE <<>>)
+            ELSE LET want == Tools!BlocksAbs(Len(file), ev.opt)
+                 IN IF ev.heads # want
+                    THEN <<[l |-> ln, what |-> "cdns-blocks shows other blocks / numbers than its options select (Tools!BlocksAbs)",
+                            opt |-> ev.opt, nb |-> Len(file), got |-> ev.heads, want |-> want]>> ELSE <<>>
+TTool == /\ l <= N /\ Tr[l].e = "T" /\ l' = l + 1 /\ execs' = execs + 1
+         /\ drift' = (IF Len(drift) < 20 THEN drift \o ToolDrift(Tr[l], l) ELSE drift) /\ UNCHANGED viol
+TCount == /\ l <= N /\ Tr[l].e = "I" /\ l' = l + 1 /\ execs' = execs + 1 /\ viol' = Notes(CountViol(Tr[l], l)) /\ UNCHANGED drift
 TEnd == /\ l <= N /\ Tr[l].e = "END"
-        /\ ndJsonSerialize(IOEnv.OUT, <<[execs |-> execs, events |-> N, viol |-> viol, drift |-> <<>>]>>)
-        /\ l' = l + 1 /\ UNCHANGED <<viol, execs>>
-TraceNext == TMerge \/ TCount \/ TEnd
+        /\ ndJsonSerialize(IOEnv.OUT, <<[execs |-> execs, events |-> N, viol |-> viol, drift |-> drift]>>)
+        /\ l' = l + 1 /\ UNCHANGED <<viol, execs, drift>>
+TraceNext == TMerge \/ TCount \/ TTool \/ TEnd
 TraceSpec == TraceInit /\ [][TraceNext]_tvars
 TraceConsumed == TLCGet("stats").diameter - 1 = N
 =============================================================================
